@@ -412,7 +412,7 @@ Section Ext.
     intros H; injection H as <- <-. reflexivity.
   Qed.
 
-  Lemma pnum_first x s n r0 : pnum (x :: s) = Some (n, r0) -> x = 45 \/ 48 <= x <= 57.
+  Lemma pnum_head x s n r0 : pnum (x :: s) = Some (n, r0) -> x = 45 \/ 48 <= x <= 57.
   Proof.
     unfold pnum. cbn [p_sign]. destruct (x =? 45) eqn:D; [apply N.eqb_eq in D; auto|].
     unfold p_int. destruct (x =? 48) eqn:F; [apply N.eqb_eq in F; intros _; right; lia|].
@@ -432,7 +432,7 @@ Section Ext.
       apply strip_prefix_sound in E3. subst s. reflexivity. }
     destruct (pnum s) as [[n r4]|] eqn:E4; [|discriminate]. injection H as <- <-.
     rewrite (pnum_ext _ _ _ E4).
-    destruct s as [|x s']; [discriminate E4|]. pose proof (pnum_first _ _ _ _ E4) as Hx.
+    destruct s as [|x s']; [discriminate E4|]. pose proof (pnum_head _ _ _ _ E4) as Hx.
     cbn [app strip_prefix lit_true lit_false lit_null].
     replace (116 =? x) with false by (symmetry; apply N.eqb_neq; lia).
     replace (102 =? x) with false by (symmetry; apply N.eqb_neq; lia).
